@@ -30,6 +30,8 @@ pub enum Action {
     CutAfter(usize),
     /// Close the connection without any response.
     Drop,
+    /// Send these bytes as they are (not an HTTP response) and close.
+    Raw(Vec<u8>),
     /// Arbitrary response: status, declared Content-Length (None = actual), body.
     Custom {
         status: u16,
@@ -309,6 +311,12 @@ fn serve_conn(stream: TcpStream, conn: u64, core: Arc<Core>) {
             }
             Action::Drop => {
                 desc = "drop".to_string();
+                close = true;
+            }
+            Action::Raw(bytes) => {
+                desc = format!("raw({})", bytes.len());
+                let _ = out.write_all(bytes);
+                let _ = out.flush();
                 close = true;
             }
             Action::Custom { status, declared_len, body } => {
